@@ -61,12 +61,19 @@ theorem minus_context (e : Expr) :
     SoyVerif.Lemmas.ParserAdj.lastOf .tInvalid (SoyVerif.Lemmas.ParserAdj.typs (toks ff e)) ∈ SoyVerif.Lemmas.ParserAdj.afterOperand :=
   SoyVerif.Lemmas.ParserAdj.good_toks ff e .tInvalid (by simp [SoyVerif.Lemmas.ParserAdj.beforeOperand])
 
-/-- the key condition of `Canon` holds for every key of plain ASCII bytes (no byte that
-    `quoteString` escapes); PARTIAL: keys with escapes or multi-byte runes are covered by examples
-    and the correspondence only, keys with invalid UTF-8 violate it (`Inst.C17.invalid_utf8_key_not_requotable`) -/
-theorem key_requotable_plain_partial (k : Bytes) (h : ∀ b ∈ k, SoyVerif.Lemmas.ParserQuote.plainB b = true) :
-    Quote.unquoteString (quoteString k) = some k :=
-  SoyVerif.Lemmas.ParserQuote.requote_plain k h
+/-- FULL (`unquote_quote` for the Soy string-literal grammar): the printer's quoting of ANY byte
+    string — escapes, multi-byte runes, bytes that are not valid UTF-8 — reads back as that string;
+    this is why `Canon` needs no condition on map keys -/
+theorem key_requotable (k : Bytes) : Quote.unquoteString (quoteString k) = some k :=
+  SoyVerif.Lemmas.ParserQuote.requote k
+
+/-- C01, string-literal side: every byte string `v` has a Soy literal (`quoteString v`) that the
+    parser reads as `v` — the string node `'…'` with that spelling is canonical, so the round-trip
+    theorems apply to it -/
+theorem unquote_quote (v : Bytes) (p : Nat) :
+    Quote.unquoteString (quoteString v) = some v ∧ Canon ff pf (.str p (quoteString v) v) := by
+  refine ⟨SoyVerif.Lemmas.ParserQuote.requote v, ?_⟩
+  rw [Canon]; exact SoyVerif.Lemmas.ParserQuote.requote v
 
 variable (T : TableOK)
 include T
